@@ -3,6 +3,7 @@ from vmon.probe import shard_rng, observe
 from vmon.refs import scriptnum as R
 
 PROPERTY = "C12"
+PRELOAD_NETWORK_ORDERS = [["btc", "xtn", "ltc", "bch", "grs", "doge", "dash", "btg"], ["btg", "grs", "bch", "doge", "ltc", "xtn", "btc"]]
 LEVEL = "exploration"
 TECHNIQUE = ("differential runtime monitor vs a Core-semantics reference (CScriptNum, GetOp, CheckMinimalPush); exhaustive "
              "small integers / short byte strings / every push length across the opcode boundaries")
